@@ -999,13 +999,16 @@ Section Quiet.
       inversion H; subst. split; [split; assumption|constructor].
   Qed.
 
+  Lemma resume_at_quiet st s s' o : quiet s -> resume_at cfg st s = (s', o) -> quiet s' /\ Forall not_sol o.
+  Proof. unfold resume_at. apply idle_run_quiet. Qed.
+
   Lemma fire_deadline_quiet s s' o :
     IA szany s -> quiet s -> fire_deadline cfg s = (s', o) -> quiet s' /\ Forall not_sol o.
   Proof.
     intros HI [Q1 Q2]. unfold fire_deadline. destruct (s_control s) as [|se dl r|resp is_null retries dl] eqn:Ec.
-    - unfold resume_at. apply idle_run_quiet. split; assumption.
+    - apply resume_at_quiet. split; assumption.
     - destruct (resume_at cfg (stage_of r) (upd_control s CIdle)) as [s1 o1] eqn:E.
-      unfold resume_at in E. apply idle_run_quiet in E; [|split; assumption].
+      apply resume_at_quiet in E; [|split; assumption].
       intros H; inversion H; subst. split; [tauto|]. cbn [app]. constructor; [exact I|]. constructor; [exact I|]. tauto.
     - assert (Hresp : r_fn resp = 130). { destruct HI as [[_ I2] _]. rewrite Ec in I2. exact (proj1 I2). }
       match goal with |- (if ?c then _ else _) = _ -> _ => destruct c end.
@@ -1014,7 +1017,7 @@ Section Quiet.
       + destruct (end_unsol cfg s is_null UrTimeout) as [[s1 ns] o1] eqn:E1.
         apply end_unsol_frame in E1. destruct E1 as (F1 & _ & F3 & F4 & _ & _ & _ & _ & _ & _ & F11).
         destruct (resume_at cfg (St3 ns) s1) as [s2 o2] eqn:E2.
-        unfold resume_at in E2. apply idle_run_quiet in E2; [|split; congruence].
+        apply resume_at_quiet in E2; [|split; congruence].
         intros H; inversion H; subst. split; [tauto|]. cbn [app]. constructor; [exact I|].
         apply Forall_app. split; [apply no_tx_not_sol; exact F11|tauto].
   Qed.
